@@ -774,6 +774,8 @@ def _binds_prev(ins_text):
         return True
     if s.startswith(';') or s.startswith('}') or s.startswith(')'):
         return True
+    if re.search(r'\b__\w+\s*\}\s*;?\s*$', s):
+        return True   # the closer of a ghost-naming wrapper (`.. proof {..} __v }` / `__v };`) follows the wrapped expression
     if s.endswith('=') or s.endswith(':') or s.endswith('= {') or re.search(r'\{\s*let\s+(mut\s+)?\w+\s*$', s):
         return False
     return s.endswith('{') or s.endswith('(')
@@ -930,6 +932,22 @@ def merge(chunks, real_text):
             a_ = b_
         return out_
 
+    # guard removal / guard insertion: `{ if C { S } }` vs `{ S }`.  The differ may delete `{ if C` and the LAST `}` (keeping the
+    # guard's own braces as the surrounding block's) - equally short, but then everything anchored between the two closing braces
+    # ends up outside the block.  Prefer deleting the statement `if C {` .. `}`: the run is shifted by one at both ends.
+    for a_ in range(len(r0)):
+        if r0[a_] != '{' or a_ in image or a_ + 1 >= len(r0) or r0[a_ + 1] not in ('if', 'while', 'for', 'match', 'loop', 'unsafe'):
+            continue
+        b_ = a_ + 1
+        while b_ < len(r0) and b_ not in image:
+            b_ += 1
+        if b_ >= len(r0) or r0[b_] != '{':
+            continue
+        pa_, pb_ = partner.get(a_), partner.get(b_)
+        if pa_ is None or pb_ is None or pa_ in image or pb_ not in image or pb_ + 1 != pa_:
+            continue
+        image[a_] = image.pop(b_)
+        image[pa_] = image.pop(pb_)
     n0 = len(r0)
     done_runs = set()
     for _ in range(200):
@@ -980,6 +998,10 @@ def merge(chunks, real_text):
             prv = image.get(p - 1) if p > 0 else None
             if p >= len(r0) and prv is None and not r0:
                 nxt = None
+            if p > 0 and r0[p - 1] == 'return' and prv is None and re.match(r'\s*Ghost\(\w+\)\s*$', t):
+                # the ghost result of a `return` statement that no longer exists
+                dropped.append({'kind': 'annotation-of-deleted-code', 'text': t.strip()[:80], 'deleted': 'return'})
+                continue
             choice = None
             if nxt is not None and prv is not None:
                 if nxt == prv + 1:
@@ -1041,6 +1063,22 @@ def merge(chunks, real_text):
                         conflicts.append({'kind': 'annotation-of-moved-code', 'text': t.strip()[:80], 'contract': bool(re.search(r'\b(requires|ensures|invariant|decreases)\b', t))})
                         continue
                     dropped.append({'kind': 'annotation-of-deleted-code', 'text': t.strip()[:80], 'deleted': ' '.join(r0[a:b])[:120]})
+                    continue
+            if choice is None and 0 < p < len(r0):
+                # both neighbours are gone and the run around the insertion is not balanced (the differ matched a `;` or `,` inside the
+                # deleted statement with a new one): if the innermost block that held the insertion lost BOTH its braces, the block
+                # was deleted and the annotation, which has no surviving anchor, goes with it
+                depth_, o_ = 0, None
+                for q in range(p - 1, -1, -1):
+                    if r0[q] in (')', ']', '}'):
+                        depth_ += 1
+                    elif r0[q] in ('(', '[', '{'):
+                        if depth_ == 0:
+                            o_ = q
+                            break
+                        depth_ -= 1
+                if o_ is not None and r0[o_] == '{' and o_ not in image and partner.get(o_) is not None and partner[o_] not in image and not re.search(r'\b(requires|ensures|invariant|decreases)\b', t):
+                    dropped.append({'kind': 'annotation-of-deleted-code', 'text': t.strip()[:80], 'deleted': ' '.join(r0[o_:partner[o_] + 1])[:120]})
                     continue
             if choice is None:
                 conflicts.append({'kind': 'insertion', 'text': t.strip()[:80], 'contract': bool(re.search(r'\b(requires|ensures|invariant|decreases)\b', t))})
